@@ -25,7 +25,7 @@ ASSUMPTIONS = [
     "inputs whose re-read fails under BOTH configurations are not comparable and are counted (C11 judges re-readability)",
     "VERS and WRAP items are excluded from the comparison, as the statement says",
 ]
-REQUIRED = ["pairs_compared", "pairs_12_vs_20", "pairs_wrap_vs_nowrap", "pairs_with_table_and_other_well_items", "corpus_pairs", "generated_pairs", "pairs_source_case_lower", "pairs_source_case_preserve"]
+REQUIRED = ["pairs_compared", "pairs_12_vs_20", "pairs_wrap_vs_nowrap", "pairs_with_table_and_other_well_items", "corpus_pairs", "generated_pairs", "pairs_source_case_lower", "pairs_source_case_preserve", "inputs_with_wide_tables", "pairs_with_rows_over_256_chars"]
 SOFT_DEADLINE = {"quick": 100, "thorough": 1500}
 LEVEL_TEXT = "Metamorphic exploration over pairs of writer configurations; equality of the two re-reads is the oracle."
 LEVEL_NOTE = "Equality of two observed executions; trusts the canonical snapshot; configurations outside the listed dimensions are not covered."
@@ -75,6 +75,16 @@ def grid(tier):
                "src_case": ["upper", "lower", "preserve"][k % 3]}
 
 
+    # wide tables: data rows of every length relative to the 79 / 255 / 256-character marks, with and without wrapping
+    k = 0
+    for extra in (5, 6, 13, 20, 22, 23, 24, 27, 29, 34, 41, 55):
+        for cfgs in (({"version": 1.2, "wrap": False}, {"version": 2, "wrap": False}), ({"version": 1.2}, {"version": 1.2, "wrap": True}),
+                     ({"version": 1.2, "wrap": False, "len_numeric_field": 20}, {"version": 2, "wrap": True, "len_numeric_field": 20}),
+                     ({"version": 1.2, "wrap": False, "data_width": 40}, {"version": 2, "wrap": False, "data_width": 40})):
+            k += 1
+            yield {"input": "gen", "seed": 1000 + k, "cfg1": cfgs[0], "cfg2": cfgs[1], "fmt": 0, "gen_version": 2 if k % 2 else 1.2, "src_case": "upper", "wide": extra}
+
+
 def n_random(tier):
     return 400 if tier == "quick" else 10000
 
@@ -83,6 +93,8 @@ def random_case(rng, tier):
     c = {"cfg1": rand_cfg(rng), "cfg2": rand_cfg(rng), "fmt": rng.randrange(len(FMTS)), "src_case": rng.choice(["upper", "upper", "lower", "preserve"])}
     if rng.random() < 0.5:
         c.update(input="gen", seed=rng.randrange(10 ** 9), gen_version=rng.choice([1.2, 2]))
+        if rng.random() < 0.25:
+            c["wide"] = rng.choice([6, 13, 20, 23, 27, 34, 41, 48, 55, 62])
     else:
         c.update(input=rng.choice(corpus()))
     return c
@@ -122,6 +134,10 @@ def run_case(case, ctx):
         spec = lasobj.rand_spec(random.Random(case["seed"]), text_curve=0.0)
         try:
             b = io.StringIO()
+            if case.get("wide"):
+                nrows = len(spec["curves"][0][4])
+                spec["curves"] = spec["curves"][:1] + [["W%d" % j, "u", "", "wide %d" % j, [round(100.0 * j + i + 0.25, 2) for i in range(nrows)]] for j in range(case["wide"])]
+                ctx.count("inputs_with_wide_tables")
             obj = lasobj.build(lasio, spec)
             if case["seed"] % 2:
                 for it in obj.well:           # a ~Well section whose descriptions are short or empty
@@ -186,6 +202,8 @@ def run_case(case, ctx):
     rich = len([n for n in names if n in table]) >= 1 and len([n for n in names if n not in table]) >= 2
     if rich and v1 != v2:
         ctx.count("pairs_with_table_and_other_well_items")
+    if max((len(l) for l in (t1 + "\n" + t2).splitlines()), default=0) > 256 or (case.get("wide", 0) >= 24):
+        ctx.count("pairs_with_rows_over_256_chars")
     c1, c2 = content(r1), content(r2)
     if c1 != c2:
         diffs = canon.diff(c1, c2)
